@@ -550,11 +550,13 @@ pub mod dbpages {
                         match reader.parse_for_snapshot(bytes, &snapshot) {
                             Ok(Some(layout)) => TupleRef::new(bytes, layout).to_row_with(&schema).ok().map(Relation::from_meta_table_row).map(|r| (r.name().to_string(), r.root(), false)),
                             _ => {
-                                // invisible: created by a transaction that aborted (and not dropped since)?
+                                // invisible: created by a transaction that aborted, or dropped (a relation's
+                                // pages are released by VACUUM, not by DROP)
                                 let t = crate::storage::tuple::Tuple::from_slice_unchecked(bytes).ok()?;
-                                if t.xmax().is_none() && snapshot.is_transaction_aborted(t.xmin()) {
+                                let dropped = t.xmax().is_some_and(|x| !snapshot.is_transaction_aborted(x));
+                                if dropped || snapshot.is_transaction_aborted(t.xmin()) {
                                     let layout = reader.parse_last_version(bytes).ok()?;
-                                    TupleRef::new(bytes, layout).to_row_with(&schema).ok().map(Relation::from_meta_table_row).map(|r| (format!("{} (creator aborted)", r.name()), r.root(), true))
+                                    TupleRef::new(bytes, layout).to_row_with(&schema).ok().map(Relation::from_meta_table_row).map(|r| (format!("{} ({})", r.name(), if dropped { "dropped" } else { "creator aborted" }), r.root(), true))
                                 } else {
                                     None
                                 }
